@@ -65,8 +65,9 @@ def first_stencil(spec):
     return None
 
 
-def unsafe_reasons(spec, strict=True):
-    """[] iff Safe.safe strict m = true; otherwise the failing clauses."""
+def unsafe_reasons(spec, strict=True, variant=(False, False)):
+    """[] iff Safe.safe variant strict m = true; otherwise the failing clauses.
+    variant = (basis in shape order, stencil sizes declared per argument)."""
     out = []
     if spec["operates_on"] != "cell_column":
         out.append("operates-on-" + spec["operates_on"])
@@ -75,9 +76,10 @@ def unsafe_reasons(spec, strict=True):
     if strict and not all(arg_default(a) for a in spec["args"]):
         out.append("mixed-precision")
     arr = first_stencil(spec) == "cross2d"
-    if any(a["k"] == "field" and a["stencil"] and (a["stencil"] == "cross2d") != arr for a in spec["args"]):
+    if not variant[1] and any(a["k"] == "field" and a["stencil"] and (a["stencil"] == "cross2d") != arr
+                              for a in spec["args"]):
         out.append("stencil-size-mixed-cross2d")
-    if not quad_then_eval(eval_shapes(spec)):
+    if not variant[0] and not quad_then_eval(eval_shapes(spec)):
         out.append("evaluator-before-quadrature")
     return out
 
@@ -99,7 +101,7 @@ def unique_fss(spec):
     return out
 
 
-def rules_unsafe_reasons(spec):
+def rules_unsafe_reasons(spec, variant=(False, False)):
     """[] iff Rules.rules_safe m = true; otherwise codes naming the clause of the user guide that the
     code departs from (or on which the guide is silent)."""
     out = []
@@ -114,7 +116,7 @@ def rules_unsafe_reasons(spec):
         out.append("doc/refelem-normals-integer")
     if any(ops not in ([], ["gh_basis"], ["gh_diff_basis"], ["gh_basis", "gh_diff_basis"]) for _, ops in spec["funcs"]):
         out.append("doc/basis-operations-in-metadata-order")
-    if not quad_then_eval(eval_shapes(spec)):
+    if not variant[0] and not quad_then_eval(eval_shapes(spec)):
         out.append("doc/evaluator-before-quadrature")
     quads = [s for s in eval_shapes(spec) if s != "gh_evaluator"]
     if len(set(quads)) != len(quads):
